@@ -4,6 +4,8 @@ from dataclasses import dataclass, field
 from .common import *
 from . import stream_iter, stream_segment, stream_count, oracle, streams
 from .gstream import STREAMS
+from . import build
+import dataclasses
 
 TRUSTED_BASE = [
     "Lean 4.33.0 kernel; Mathlib v4.33.0 (imported only by PsSpec/PsProofs/PsProps)",
@@ -234,6 +236,19 @@ def combine(*fs):
     return tie
 
 
+def on_variant(variant, f):
+    """run a tie function against another build variant of /repo (e.g. no AVX512/POPCNT dispatch)"""
+    def tie(ctx, tie_fail):
+        d, err = build.build_repo(variant)
+        h, herr = (None, "repo variant build failed") if err else build.build_harness(d)
+        if err or herr:
+            tie_fail.append((f"build variant {variant}", (err or herr)[-1500:], None))
+            return {"evaluations": 0, "distinct_nontrivial": 0}
+        ctx2 = dataclasses.replace(ctx, repo_build=d, harness=h, workdir=ctx.workdir + "-" + variant)
+        return f(ctx2, tie_fail)
+    return tie
+
+
 def combine_witness(*fs):
     def w(ctx, obligations_failed, tie_fail):
         for f in fs:
@@ -355,6 +370,28 @@ REGISTRY = {
                       "is tied by the nth stream, not proved yet"],
         explanation="argument validation (|n| > pi(2^64) incl. INT64_MIN rejected before negation), n = 0 mapping, negative n "
                     "without room; the walks are tied by correspondence against an independent oracle"),
+    "C08": Prop(
+        targets=["PsProps.C08"],
+        theorems=[("PsProps.C08", "Ps.Props.C08_setSieveSize_clamped"), ("PsProps.C08", "Ps.Props.C08_setNumThreads_clamped"),
+                  ("PsProps.C08", "Ps.Props.C08_getSieveSize_range"), ("PsProps.C08", "Ps.Props.C08_getSieveSize_user"),
+                  ("PsProps.C08", "Ps.Props.C08_l1_range"), ("PsProps.C08", "Ps.Props.C08_sieveSize_mod8_or_pow2"),
+                  ("PsProps.C08", "Ps.Props.C08_counts_independent_of_threads"),
+                  ("PsProps.C08", "Ps.Props.C08_iterator_independent")],
+        tie=combine(("cfg", streams.CFG.tie),
+                    ("segment-portable", on_variant("portable", segment_tie)),
+                    ("count-portable", on_variant("portable", count_tie)),
+                    ("print-portable", on_variant("portable", streams.PRINT.tie))),
+        witness=combine_witness(streams.CFG.witness, segment_witness, count_witness),
+        assumptions=ITER_ASSUME + COUNT_ASSUME + [
+            "cache descriptions are injected by overwriting the fields of the CpuInfo singleton through the friend probe "
+            "(hook H0); parsing of /sys by CpuInfo::init (iostream, std::stoul, exceptions swallowed by the constructor) is "
+            "not modelled"],
+        undischarged=["'the library always initialises' for malformed sysfs files: OS/iostream behaviour, not expressible "
+                      "in the model", "AVX512 vs portable code paths are tied by running the segment/count/print streams on "
+                      "two builds (runtime dispatch on this AVX512 machine, -DWITH_MULTIARCH=OFF), not by a proof about SIMD"],
+        explanation="clamps and get_sieve_size() range for every cache description; sieve size multiple of 8 or power of two "
+                    "for every configuration; counts independent of threads/piece length; iterator independent of block "
+                    "lengths, hints and float values"),
     "C09": Prop(
         targets=["PsProps.C09"],
         theorems=[("PsProps.C09", "Ps.Props.C09_piece_exact"), ("PsProps.C09", "Ps.Props.C09_tiling"),
